@@ -100,6 +100,12 @@ var raceFields = map[string]bool{
 	"diskwriter.Client.down":            true, "diskwriter.Client.closed": true,
 }
 
+// types all of whose fields are designated
+var raceTypes = map[string]bool{
+	"packetcache.Cache": true, "packetcache.entry": true, "packetcache.bitmap": true,
+	"packetmap.Map": true, "packetmap.entry": true,
+}
+
 var problems []string
 
 func problem(fset *token.FileSet, pos token.Pos, format string, args ...any) {
@@ -621,7 +627,10 @@ func (rw *rewriter) fieldOf(e ast.Expr) (ast.Expr, string, bool) {
 		}
 	}
 	key := rw.pkg.Name + "." + tname + "." + v.Name()
-	if !raceFields[key] {
+	if !raceFields[key] && !raceTypes[rw.pkg.Name+"."+tname] {
+		return nil, "", false
+	}
+	if v.Name() == "mu" {
 		return nil, "", false
 	}
 	obj := se.X
@@ -658,7 +667,19 @@ func (rw *rewriter) collect(stmt ast.Stmt) []fieldAccess {
 			case *ast.CallExpr:
 				if id, ok := unparen(x.Fun).(*ast.Ident); ok && len(x.Args) > 0 {
 					if _, isB := rw.info.Uses[id].(*types.Builtin); isB && (id.Name == "delete" || id.Name == "copy" || id.Name == "clear") {
-						add(x.Args[0], true)
+						a0 := x.Args[0]
+						for {
+							switch y := unparen(a0).(type) {
+							case *ast.SliceExpr:
+								a0 = y.X
+								continue
+							case *ast.IndexExpr:
+								a0 = y.X
+								continue
+							}
+							break
+						}
+						add(a0, true)
 					}
 				}
 			case *ast.SelectorExpr:
@@ -739,7 +760,11 @@ func (rw *rewriter) accessStmts(list []ast.Stmt) []ast.Stmt {
 			if a.write {
 				w = ast.NewIdent("true")
 			}
-			out = append(out, &ast.ExprStmt{X: call("Access", a.obj, &ast.BasicLit{Kind: token.STRING, Value: fmt.Sprintf("%q", a.name)}, w, rw.site(st))})
+			fl := &ast.FuncLit{
+				Type: &ast.FuncType{Params: &ast.FieldList{}, Results: &ast.FieldList{List: []*ast.Field{{Type: ast.NewIdent("any")}}}},
+				Body: &ast.BlockStmt{List: []ast.Stmt{&ast.ReturnStmt{Results: []ast.Expr{a.obj}}}},
+			}
+			out = append(out, &ast.ExprStmt{X: call("Access", fl, &ast.BasicLit{Kind: token.STRING, Value: fmt.Sprintf("%q", a.name)}, w, rw.site(st))})
 			rw.mark("access")
 		}
 		out = append(out, st)
